@@ -422,6 +422,7 @@ def check_c18(rng, n):
                     if got.split(" || ")[0] != impl_out or model_state(got) != state().replace("hot=", "hot=", 1):
                         res["diffs"].append({"input": dict(inp, direction=direction), "impl": impl_out + " || " + state(),
                                              "model": got.split(" || ")[0] + " || " + model_state(got)})
+                    res["evaluations"] += 1          # every attempted tier move is one evaluation of C18
                     if out[0] == "steps":
                         res["nontrivial"] += 1
                         if out[1] != math.ceil(size / rate):
